@@ -93,6 +93,12 @@ type Content struct {
 	Kind string `json:"kind"`
 	Set  []int  `json:"set,omitempty"` // indices into EntryU
 	K    int    `json:"k,omitempty"`
+	// Form overrides the location's list form for this one list: "" (the location's form) | number | nonumber | v1
+	// (a location may publish a numbered list now and an unnumbered one next time)
+	Form string `json:"form,omitempty"`
+	// SameThis: the list carries a fixed thisUpdate (the same as every other such list) although its number and
+	// content are new (a re-issue within the same second, or a CA that stamps the scheduled time)
+	SameThis bool `json:"same_this,omitempty"`
 }
 
 // Event is one step of a history.
@@ -383,7 +389,17 @@ func (w *World) build(c int, ct Content) []byte {
 		spec.IssuerDER = w.cas[cd.Issuer].Issuer().Cert.RawSubject
 	}
 	spec.SigAlg = gen.CompatibleAlgs(signer.Key)[1+w.number%4]
-	if cd.Form == "nonumber" || cd.Form == "v1" {
+	form := cd.Form
+	switch ct.Form {
+	case "number":
+		form = ""
+	case "nonumber", "v1":
+		form = ct.Form
+	}
+	if ct.SameThis {
+		spec.ThisUpdate = 1700000000
+	}
+	if form == "nonumber" || form == "v1" {
 		spec.Exts = nil
 	}
 	if !cd.NoAKI {
@@ -397,7 +413,7 @@ func (w *World) build(c int, ct Content) []byte {
 	for _, e := range ct.Set {
 		spec.Entries = append(spec.Entries, EntryU[e])
 	}
-	if cd.Form == "v1" && ct.Kind != "critical" {
+	if form == "v1" && ct.Kind != "critical" {
 		// a version 1 list: no crlExtensions, no entry extensions
 		spec.Version, spec.HasExts, spec.Exts = -1, false, nil
 		for i := range spec.Entries {
